@@ -183,6 +183,53 @@ def h_fit(h):
                 h.close(dA[i][k][1], other[i][k][1], f"same-references-whatever-the-{name}")
 
 
+def h_refit_other_data(h):
+    """history: a model that has been fitted to A and is then fitted to B ends up like a fresh model fitted to B
+    (intervals, their data, references and boundaries), also with the default data-derived value range"""
+    vc = shim.virocon()
+    I = shim.mod("intervals")
+    DF = shim.mod("dependencies").DependenceFunction
+    N = h.cfg["rows"]
+    kind = h.cfg["slicer"]
+
+    def lin(x, a=1.0, b=0.5):
+        return a + b * x
+
+    def make():
+        if kind == "number_default":
+            sl = I.NumberOfIntervalsSlicer(2, min_n_points=1)          # value_range=None: derived from the data
+        elif kind == "width_default":
+            sl = I.WidthOfIntervalSlicer(1.0, min_n_points=1, min_n_intervals=1)
+        else:
+            sl = I.PointsPerIntervalSlicer(2, min_n_points=1, min_n_intervals=1, reference=(lambda a: a.sum() / len(a)))
+        fam = FAMILIES["LogNormal"]
+        descs = [{"distribution": FAMILIES["Weibull"].make(), "intervals": sl},
+                 {"distribution": fam.make(), "conditional_on": 0, "parameters": {p: DF(lin) for p in fam.params}}]
+        return vc.GlobalHierarchicalModel(descs)
+
+    rowsA = [[h.real(f"a{r}_0", 0.05, 2.95), h.real(f"a{r}_1", 0.05, 2.95)] for r in range(N)]
+    rowsB = [[h.real(f"b{r}_0", 0.05, 5.95), h.real(f"b{r}_1", 0.05, 5.95)] for r in range(N)]
+    for rows in (rowsA, rowsB):          # ascending first column: the order of rows is the other harness's subject
+        for r in range(N - 1):
+            h.assume(rows[r + 1][0] - rows[r][0] >= 0.011)
+    used, fresh = make(), make()
+    out = []
+    for tag, model, rows in (("A", used, rowsA), ("AB", used, rowsB), ("B", fresh, rowsB)):
+        rec = FitRecorder(h, tag)
+        with rec.install(), stubs.optimizer_stubs(h):
+            model.fit(h.arr(rows))
+        cd = model.distributions[1]
+        out.append({"data": [_names(d) for d in cd.data_intervals], "refs": list(np.ravel(npx.deep_strip(cd.conditioning_values))),
+                    "bounds": [tuple(b) for b in cd.conditioning_interval_boundaries]})
+    h.reach()
+    ab, b = out[1], out[2]
+    h.check(len(ab["data"]) == len(b["data"]), "re-fit-has-the-intervals-of-a-fresh-fit", f"{len(ab['data'])} vs {len(b['data'])}")
+    for k in range(min(len(ab["data"]), len(b["data"]))):
+        h.check(ab["data"][k] == b["data"][k], "re-fit-interval-data-as-in-a-fresh-fit", f"{ab['data'][k]} vs {b['data'][k]}")
+        h.close(ab["refs"][k], b["refs"][k], "re-fit-references-as-in-a-fresh-fit")
+        h.close(list(ab["bounds"][k]), list(b["bounds"][k]), "re-fit-boundaries-as-in-a-fresh-fit")
+
+
 def h_refit_nested(h):
     """history: a model whose dependence functions are nested (mu uses sigma's function) is fitted to A and then
     re-fitted to B: after the re-fit every dependence function holds a fit to B's pairs made after the re-fit of the
@@ -232,6 +279,8 @@ def h_refit_nested(h):
 
 
 def obligations(tier):
+    for kind in ("number_default", "width_default", "points"):
+        yield ("refit_other_data", h_refit_other_data, {"slicer": kind, "rows": 3}, {"max_paths": 30000})
     for order in ("dependent-first", "conditioner-first"):
         yield ("refit_nested", h_refit_nested, {"rows": 3, "order": order}, {})
     for kind in ("width", "number", "points"):
